@@ -246,7 +246,7 @@ pub struct FaultRun {
 }
 
 /// clean run: returns (action index of the chosen stabilise, number of user-function invocations in it)
-pub fn fault_plan(cfg: &GenCfg, seed: u64, pick: u64) -> Option<(usize, u64, Vec<String>)> {
+pub fn fault_plan(cfg: &GenCfg, seed: u64, pick: u64) -> Result<Option<(usize, u64, Vec<String>)>, (&'static str, String)> {
     let mut rng = Rng::new(seed);
     let wcfg = Config { audit: false, read_all: false, c06: false, compare_values: true };
     let mut w = World::new(1024, wcfg);
@@ -259,12 +259,13 @@ pub fn fault_plan(cfg: &GenCfg, seed: u64, pick: u64) -> Option<(usize, u64, Vec
             break;
         }
     }
-    if !w.violations.is_empty() {
-        return None;
+    if let Some(v) = w.violations.first() {
+        // the history fails without any injected panic: reported, not skipped
+        return Err((v.prop, v.msg.clone()));
     }
     let cands: Vec<(usize, u64)> = w.stabilise_steps.iter().filter(|(_, b, e)| e > b).map(|(a, b, e)| (*a, e - b)).collect();
     if cands.is_empty() {
-        return None;
+        return Ok(None);
     }
     // mostly the last stabilise (largest graph), sometimes an earlier one
     let c = if pick % 3 == 0 { cands[(pick as usize / 3) % cands.len()] } else { *cands.last().unwrap() };
@@ -272,7 +273,7 @@ pub fn fault_plan(cfg: &GenCfg, seed: u64, pick: u64) -> Option<(usize, u64, Vec
     let mut r2 = Rng::new(seed ^ 0x5555);
     w2.teardown(&mut r2, false, false);
     let _ = std::panic::catch_unwind(std::panic::AssertUnwindSafe(move || drop(w2)));
-    Some((c.0, c.1, actions))
+    Ok(Some((c.0, c.1, actions)))
 }
 
 pub fn fault_run(cfg: &GenCfg, seed: u64, action: usize, offset: u64, teardown_seed: u64) -> FaultRun {
@@ -310,7 +311,20 @@ pub fn run_fault_shard(profile_name: &str, seed: u64, shard: u64, start: u64, co
     let mut samples = vec![];
     for i in start..count {
         let hseed = mix(mix(seed, shard), i);
-        let Some((action, n, actions)) = fault_plan(&cfg, hseed, i) else { continue };
+        let (action, n, actions) = match fault_plan(&cfg, hseed, i) {
+            Ok(Some(p)) => p,
+            Ok(None) => continue,
+            Err((prop, msg)) => {
+                if violations.len() < 20 {
+                    violations.push(J::obj(vec![
+                        ("property", J::s(prop)),
+                        ("message", J::s(format!("history run without injected panic (before enumerating crash points): {msg}"))),
+                        ("argv", J::Arr(vec![J::s("core"), J::s("--profile"), J::s(profile_name), J::s("--history"), J::s(hseed.to_string())])),
+                    ]));
+                }
+                continue;
+            }
+        };
         histories += 1;
         let offsets: Vec<u64> = if n <= cap { (0..n).collect() } else {
             capped += 1;
